@@ -19,6 +19,11 @@ CHECKS["C13"] = dict(
     note="Trusted: pysym interpreter/models, the oracle checks/names_oracle.py (validated on the repo corpus each run), z3. Inputs the oracle marks 'unspecified' (nested special characters etc.) are skipped.",
     ref="§4 C13")
 
+CHECKS["C15"] = dict(
+    text="The month value is a symbolic string (all strings of length 0..9 over the letters of the twelve English names in both cases plus digit/encloser/filler symbols; all digit strings of length <= 3 incl. non-ASCII digit characters) or a symbolic int; the three real middlewares and all nine ordered pairs are executed symbolically and z3 decides, per final world, conversion of every spelling, identity on every non-month and composition. Exhaustive by solver inside the alphabet/length bound.",
+    note="Trusted: pysym interpreter/models, z3. 'digit string' is read as ASCII decimal digits. Values outside the alphabets, longer than 9 characters, or of other types are outside the claim.",
+    ref="§4 C15")
+
 NOT_YET = "check not built yet in this round (engine exists; harness pending)"
 
 def main():
